@@ -120,6 +120,9 @@ class K:
         self.inv(lambda c, m: H.assume(c), FL, PW)
 
 
+_CLOCK_LV = ["0"]       # C lvalue of scheduler_ctx.logical_clock in the harness being built (set by build())
+
+
 def exec_stub(N):
     def stub(tr, c):
         """executor.execute_incarnation(version, tx): the ghost IncarnationDb for location X"""
@@ -184,6 +187,11 @@ def build(N, roles):
         sc.freeze_sched(H, S, N)
         k = K(H, S, N)
         H.cvar("F_lower", "usize"); H.cvar("pendingw", "_Bool", dims=[N])
+        H.cvar("bene_invalidated", "unsigned char"); H.cvar("in_validate", "_Bool"); H.cvar("scan_before_ts", "_Bool"); H.cvar("clock_at_validate", "usize")
+        H.c("bene_invalidated = 0; in_validate = 0; scan_before_ts = 0; clock_at_validate = 0;")
+        H.cvar("f_parked", "_Bool"); H.cvar("f_notified", "_Bool"); H.cvar("f_parked_at", "usize")
+        H.c("f_parked = 0; f_notified = 0; f_parked_at = 0;")
+        _CLOCK_LV[0] = k.ctx("logical_clock")
         sc.init_sched(H, S, N)
         # the dependency graph is inert in this kernel: nothing is claimable for execution through the cursor
         H.c(f"{H.lv(S, 'tx_dependency.index')} = {N};")
@@ -212,7 +220,18 @@ def build(N, roles):
                 H.assert_(f"{H.lv(inner, 'd')} == {H.variant(inner, '', 'Validation')}", "with an inert dependency cursor next() only hands out validation tasks")
                 H.c(f"if ({H.lv(inner, 'd')} == {H.variant(inner, '', 'Validation')}) {{")
                 t2 = H.local(f"task{ti}b", "Option<Task>")
+                vt = H.lv(inner, "Validation.0.txid")
+                H.cvar(f"vt{ti}", "usize"); H.cvar(f"wasv{ti}", "_Bool")
+                H.c(f"vt{ti} = {vt}; __CPROVER_assume(vt{ti} < {N});")
+                H.c(f"__CPROVER_atomic_begin(); wasv{ti} = ({k.status('vt%d' % ti)} == {ST['Validating']}); bene_invalidated = 0; scan_before_ts = 0; "
+                    f"clock_at_validate = {k.ctx('logical_clock')}; in_validate = 1; __CPROVER_atomic_end();")
                 H.call("Scheduler::validate", [H.ref(S), VUnit(), VLoc(Loc(H.nav(inner, "Validation.0"), []))], t2)
+                H.c("in_validate = 0;")
+                H.assert_(f"!(wasv{ti} && {k.status('vt%d' % ti)} == {ST['Conflict']}) || bene_invalidated == 1",
+                          "a validation that ends in Conflict retracts the incarnation's fee-recipient history entry (Beneficiary::invalidate), whatever its write set")
+                H.assert_(f"!(wasv{ti} && {k.status('vt%d' % ti)} == {ST['Unconfirmed']}) || !scan_before_ts",
+                          "a validation that ends Unconfirmed drew its logical timestamp before it looked at the multi-version memory "
+                          "(a rewind issued during the scan must get a newer lower bound)")
                 H.c("} }")
             elif role == "R":
                 H.cvar("exec_blocked", "_Bool", shared=False); H.cvar("exec_blocker", "usize", shared=False); H.cvar("exec_fail", "_Bool", shared=False)
@@ -222,6 +241,16 @@ def build(N, roles):
                 # a task handed back (validate self) is a later step: the status is already Validating
                 H.c(f"__CPROVER_atomic_begin(); pendingw[T{r}] = 0; __CPROVER_atomic_end();")
                 r += 1
+            elif role == "G":
+                # ghost finality coordinator (one pass of run_finality_loop's outer loop, run atomically at any visible operation of the validator):
+                # it may finalise the head if that is Unconfirmed and unlocked, then examines the new head; if that is not ready it parks.
+                H.c("__CPROVER_atomic_begin();")
+                fin = k.ctx("finality")
+                H.c(f"if ({fin} < {N} && nondet_bool() && !{H.lv(S, 'tx_states.e.locked', ['(%s < %d ? %s : 0)' % (fin, N, fin)])} && "
+                    f"{k.status('(%s < %d ? %s : 0)' % (fin, N, fin))} == {ST['Unconfirmed']}) {{ {k.status(fin)} = {ST['Finality']}; {fin} = {fin} + 1; }}")
+                H.c(f"if ({fin} < {N} && !{H.lv(S, 'tx_states.e.locked', ['(%s < %d ? %s : 0)' % (fin, N, fin)])} && "
+                    f"{k.status('(%s < %d ? %s : 0)' % (fin, N, fin))} != {ST['Unconfirmed']}) {{ f_parked = 1; f_parked_at = {fin}; f_notified = 0; }}")
+                H.c("__CPROVER_atomic_end();")
             elif role == "F":
                 cand = H.local(f"cand{ti}", "Option<(MutexGuard<TxState>, usize)>")
                 H.cvar("fidx", "usize", shared=False)
@@ -241,6 +270,15 @@ def build(N, roles):
                 H.call("SchedulerContext::publish_finality", [H.ref(S, "scheduler_ctx"), H.val("fidx + 1")])
                 H.c("}")
         H.post()
+        if "G" in roles:
+            # lost wake-up: the coordinator parked on a head that was not ready; the validator then made exactly that head Unconfirmed
+            for ti, role in enumerate(roles):
+                if role == "V":
+                    H.assert_(f"!(f_parked && wasv{ti} && vt{ti} == f_parked_at && {k.ctx('finality')} == f_parked_at && {k.status('vt%d' % ti)} == {ST['Unconfirmed']}) || f_notified",
+                              "the finality coordinator parked on head k while k was not ready; the validation that then publishes k as Unconfirmed notifies it "
+                              "(publish, unlock, THEN read the finality index)")
+            H.cover("f_parked && f_notified", "parked coordinator notified")
+            return H
         k.inv(lambda c, m: H.assert_(c, "INV " + m), "F_lower", "pendingw", clock_max=240)
         H.cover(" || ".join(f"{k.status(i)} == {ST['Unconfirmed']}" for i in range(N)), "some tx ends Unconfirmed")
         H.cover(" || ".join(f"({k.status(i)} == {ST['Unconfirmed']} && !{k.valid_now(i)})" for i in range(1, N)), "a stale Unconfirmed tx exists at the end (fenced)")
@@ -249,8 +287,17 @@ def build(N, roles):
     return b
 
 
-def cfg(N, rounds=None):
+def cfg(N, rounds=None, wake=False):
     stubs = dict(sc.bene_true_stubs())
+    if wake:
+        def notify(tr, c):
+            tr.emit("__CPROVER_atomic_begin(); f_notified = 1; __CPROVER_atomic_end();")
+        stubs["WaitSlot::notify"] = notify
+
+    def invalidate(tr, c):
+        tr.emit("bene_invalidated++;")
+        c.ret(VScalar("1", "_Bool"))
+    stubs["Beneficiary::invalidate"] = invalidate
     stubs["<impl ParallelTransactionExecutor as ParallelTransactionExecutor>::execute_incarnation"] = exec_stub(N)
     c = sc.mv_cfg(N, L=1, stubs=stubs)
     c["loops"] = {"Scheduler::next": {"*": (2, "assume")}, "Scheduler::validate": {"*": (3, "assert")},
@@ -260,6 +307,11 @@ def cfg(N, rounds=None):
         c["inject"] = True
     elif rounds:
         c["seq_rounds"] = rounds
+
+    def on_lookup(tr, c_, dm):
+        # ghost for validate: a read-set scan that looks into the multi-version memory before the validation's logical timestamp is drawn
+        tr.emit(f"if (in_validate && {_CLOCK_LV[0]} == clock_at_validate) scan_before_ts = 1;")
+    c["dash_get_hook"] = on_lookup
     return c
 
 
@@ -340,6 +392,59 @@ def cfg_rewind(N, L):
     return c
 
 
+# ------------------------------------------------------------------------------------------------ a failed validation retracts everything the incarnation published
+def build_vconf(N, L):
+    def b(tr):
+        H = hz.Harness(tr, "c02_vconf")
+        S = H.local("S", "Scheduler<DB>")
+        sc.freeze_sched(H, S, N)
+        k = K(H, S, N)
+        sc.init_sched(H, S, N); sc.init_ctx(H, S, N); sc.init_tx_tables(H, S, N, L)
+        H.cvar("bene_invalidated", "unsigned char", shared=False); H.cvar("T", "usize", shared=False); H.cvar("wold", "_Bool", dims=[L], shared=False)
+        H.c(f"bene_invalidated = 0; T = nondet_usize(); __CPROVER_assume(T < {N});")
+        H.c(f"{k.ctx('logical_clock')} = 7; {k.ctx('validation')} = nondet_usize(); __CPROVER_assume({k.ctx('validation')} <= {N});")
+        H.c(f"{k.ctx('finality')} = nondet_usize(); __CPROVER_assume({k.ctx('committed')} <= {k.ctx('finality')} && {k.ctx('finality')} <= T);")
+        for i in range(N):
+            H.c(f"{k.status(i)} = nondet_uchar(); __CPROVER_assume({k.status(i)} <= 6); {k.inc(i)} = nondet_usize(); __CPROVER_assume({k.inc(i)} <= 3);")
+            H.c(f"{H.lv(S, 'tx_dependency.dependent_state.e.data.onboard', [i])} = 0;")
+        H.c(f"__CPROVER_assume({k.status('T')} == {ST['Validating']} && {k.inc('T')} == 2);")
+        ws = H.nav(k.trn, "Some.0.write_set"); rs = H.nav(k.trn, "Some.0.read_set"); rv = H.nav(rs, "vals.e")
+        H.c(f"{H.lv(k.trn, 'd', ['T'])} = 1; {H.lv(k.trn, 'Some.0.execute_result.d', ['T'])} = 0;")
+        for l in range(L):
+            H.c(f"wold[{l}] = nondet_bool(); {H.lv(ws, 'present.e', ['T', l])} = wold[{l}]; {H.lv(ws, 'keys.e.id', ['T', l])} = {l};")
+            H.c(f"{H.lv(rs, 'present.e', ['T', l])} = nondet_bool(); {H.lv(rs, 'keys.e.id', ['T', l])} = {l}; {H.lv(rv, 'd', ['T', l])} = nondet_bool() ? {k.kind('Storage')} : {k.kind('MvMemory')};")
+            H.c(f"{H.lv(rv, 'MvMemory.0.txid', ['T', l])} = nondet_usize(); {H.lv(rv, 'MvMemory.0.incarnation', ['T', l])} = nondet_usize();")
+            H.c(f"{H.lv(k.mv, 'data.present', [l])} = nondet_bool();")
+            for a in range(N):
+                H.c(f"{H.lv(k.mv, 'data.val.present.e', [l, a])} = nondet_bool(); {H.lv(k.mv, 'data.val.vals.e.incarnation', [l, a])} = nondet_usize(); {H.lv(k.mv, 'data.val.vals.e.estimate', [l, a])} = nondet_bool();")
+        t2 = H.local("taskv", "Option<Task>")
+        H.call("Scheduler::validate", [H.ref(S), VUnit(), VAgg([H.val("T"), H.val("2")])], t2)
+        H.assert_(f"!{H.lv(S, 'abort')}", "a consistent validation never aborts the block")
+        H.assert_(f"{k.status('T')} == {ST['Conflict']} || {k.status('T')} == {ST['Unconfirmed']}", "validation ends Conflict or Unconfirmed")
+        H.assert_(f"!({k.status('T')} == {ST['Conflict']}) || bene_invalidated == 1",
+                  "a failed validation retracts the incarnation's fee-recipient history entry (Beneficiary::invalidate exactly once) -- also when its write set is empty")
+        for l in range(L):
+            H.assert_(f"!({k.status('T')} == {ST['Conflict']} && wold[{l}] && {H.lv(k.mv, 'data.present', [l])} && {H.lv(k.mv, 'data.val.present.e', [l, 'T'])}) || {H.lv(k.mv, 'data.val.vals.e.estimate', [l, 'T'])}",
+                      f"... and marks what it wrote to location {l} as an estimate")
+        H.assert_(f"!({k.status('T')} == {ST['Unconfirmed']}) || bene_invalidated == 0", "a successful validation retracts nothing")
+        H.cover(f"{k.status('T')} == {ST['Conflict']} && !wold[0] && !wold[1]", "failed validation of an incarnation with an empty write set")
+        H.cover(f"{k.status('T')} == {ST['Unconfirmed']}", "successful validation")
+        return H
+    return b
+
+
+def cfg_vconf(N, L):
+    stubs = dict(sc.bene_true_stubs())
+
+    def invalidate(tr, c):
+        tr.emit("bene_invalidated++;")
+        c.ret(VScalar("1", "_Bool"))
+    stubs["Beneficiary::invalidate"] = invalidate
+    c = sc.mv_cfg(N, L=L, stubs=stubs)
+    c["loops"] = {"Scheduler::validate": {"*": (L + 2, "assert")}, "Scheduler::mark_mv_estimate": {"*": (L + 2, "assert")}}
+    return c
+
+
 def specs(tier):
     N = 3
     out = []
@@ -349,6 +454,12 @@ def specs(tier):
                         desc=f"inductive step, roles {' || '.join(roles)} (V validation worker, R executing worker, F finality step) from an arbitrary INV state"
                              + ("; second role runs atomically at any conflicting visible operation of the first (context bound A|B|A)" if len(roles) == 2 else ""),
                         bounds={"n": N, "locations": 1, "threads": len(roles), "memory_model": "SC", "context_switches": 2 if len(roles) == 2 else 0}))
+    out.append(Spec(f"wake_VG_n{N}", build(N, ["V", "G"]), cfg=cfg(N, rounds="inject", wake=True), unwind=N + 3, timeout=3000,
+                    desc="real next -> validate with a ghost finality coordinator pass (finalise head / examine new head / park) injected atomically at any visible operation: "
+                         "a coordinator that parked on head k is notified by the validation that publishes k", bounds={"n": N, "locations": 1, "threads": 2, "context_switches": 2}))
+    out.append(Spec("validate_conflict_retracts_n3_l2", build_vconf(N, 2), cfg=cfg_vconf(N, 2), unwind=N + 3, timeout=1800,
+                    desc="real validate over two locations, any read set / write set / MV memory: a failed validation calls Beneficiary::invalidate exactly once and "
+                         "marks its writes as estimates, whatever the write set", bounds={"n": N, "locations": 2, "threads": 1}))
     out.append(Spec("rewind_on_new_write_n3_l2", build_rewind(N, 2), cfg=cfg_rewind(N, 2), unwind=N + 3, timeout=1800,
                     desc="real execute_task over TWO locations, previous and new write sets any subsets: a location not written before (incl. a moved write of the same size) "
                          "rewinds validation for every later transaction", bounds={"n": N, "locations": 2, "threads": 1}))
